@@ -464,6 +464,12 @@ func check(prop string, seed uint64, tier string, maxRuns, workers int, base, ve
 	defer os.RemoveAll(scratch)
 
 	fmt.Printf("VERIF_SEED=%d property=%s tier=%s runs<=%d workers=%d budget=%ds\n", seed, prop, tier, tc.runs, workers, tc.budgetS)
+	// replay files of earlier invocations for this property are stale once we re-run it
+	if old, _ := filepath.Glob(filepath.Join(verif, "replays", prop+"-*.json")); len(old) > 0 {
+		for _, f := range old {
+			os.Remove(f)
+		}
+	}
 
 	var mu sync.Mutex
 	var lines []runLine
@@ -630,6 +636,20 @@ func check(prop string, seed uint64, tier string, maxRuns, workers int, base, ve
 	}
 	for _, v := range vlines {
 		fmt.Println(v)
+	}
+	// keep only the replay files that a VIOLATION line refers to
+	if all, _ := filepath.Glob(filepath.Join(verif, "replays", prop+"-*.json")); len(all) > 0 {
+		keep := map[string]bool{}
+		for _, s := range sigs {
+			if matchKnown(known, s) == nil {
+				keep[sigReplay[s]] = true
+			}
+		}
+		for _, f := range all {
+			if !keep[f] {
+				os.Remove(f)
+			}
+		}
 	}
 
 	hours := wall / 3600
